@@ -51,7 +51,8 @@ Definition spec_skeleton (e : entity) : list (N * N * bytes) :=
   ++ [(2, 1, Q ++ bs "QueryService")]
   ++ flat_map (command_skel e) (e_commands e)
   ++ [(0, 2, C ++ bs "EventMessage"); (2, 2, to_camel (C ++ bs "Publish") ++ bs "Topic")]
-  ++ flat_map (summary_skel e) (e_summaries e).
+  ++ flat_map (summary_skel e) (e_summaries e)
+  ++ map (fun sc => (0, 0, fst sc)) (e_schemas e).      (* objects declared in the entity block *)
 
 Lemma map_flat_map : forall {A B C} (f : B -> C) (g : A -> list B) l,
   map f (flat_map g l) = flat_map (fun x => map f (g x)) l.
@@ -105,7 +106,7 @@ Proof.
   rewrite !map_app, !map_flat_map.
   rewrite (flat_map_ext' _ _ _ (command_components_skel e)).
   rewrite (flat_map_ext' _ _ _ (summary_components_skel e)).
-  rewrite query_components_skel, publish_components_skel.
+  rewrite query_components_skel, publish_components_skel, map_map.
   rewrite <- !app_assoc. reflexivity.
 Qed.
 
@@ -138,12 +139,58 @@ Lemma resolves_enum : forall D n j r q fl p t fi,
   In (true, n) D -> resolves D (mkF j (TEnum [] n) r q fl p t fi) = true.
 Proof. intros. unfold resolves, ref_resolves. cbn [f_type]. now apply resolves_local. Qed.
 
-Lemma resolves_ufield : forall D u, resolves D (of_ufield u) = true.
-Proof. intros D [n [pt k|p f t] r o]; reflexivity. Qed.
-Lemma resolves_ufields : forall D l, forallb (resolves D) (map of_ufield l) = true.
+(* scalar and key fields carry no reference *)
+Definition is_ref_field (u : ufield) : bool := match uf_kind u with KObject _ => true | _ => false end.
+Lemma resolves_ufield_scalar : forall D u, is_ref_field u = false -> resolves D (of_ufield u) = true.
+Proof. intros D [n [pt k|nm|p f t] r o] H; try reflexivity. discriminate. Qed.
+
+(* what the user's own object references must name for the file to compile *)
+Definition user_refs_ok (e : entity) (D : list (bool * bytes)) : bool :=
+  forallb (fun u => resolves D (of_ufield u)) (all_ufields e).
+
+(* membership of each group of user fields in [all_ufields] *)
+Lemma in_all_keys : forall e u, In u (map k_def (e_keys e)) -> In u (all_ufields e).
+Proof. intros e u H. unfold all_ufields. apply in_or_app. now left. Qed.
+Lemma in_all_data : forall e u, In u (e_data e) -> In u (all_ufields e).
+Proof. intros e u H. unfold all_ufields. apply in_or_app. right. apply in_or_app. now left. Qed.
+Lemma in_all_event : forall e ev u, In ev (e_events e) -> In u (ev_fields ev) -> In u (all_ufields e).
 Proof.
-  intros D l. induction l as [|u l IH]; [reflexivity|]. cbn [map forallb].
-  now rewrite resolves_ufield, IH.
+  intros e ev u He H. unfold all_ufields. do 2 (apply in_or_app; right). apply in_or_app. left.
+  apply in_flat_map. exists ev. split; assumption.
+Qed.
+Lemma in_all_request : forall e c m u, In c (e_commands e) -> In m (c_methods c) ->
+  In u (md_request m) -> In u (all_ufields e).
+Proof.
+  intros e c m u Hc Hm H. unfold all_ufields. do 3 (apply in_or_app; right). apply in_or_app. left.
+  apply in_flat_map. exists c. split; [assumption|]. apply in_flat_map. exists m. split; [assumption|].
+  apply in_or_app. now left.
+Qed.
+Lemma in_all_response : forall e c m r u, In c (e_commands e) -> In m (c_methods c) ->
+  md_response m = Some r -> In u r -> In u (all_ufields e).
+Proof.
+  intros e c m r u Hc Hm Hr H. unfold all_ufields. do 3 (apply in_or_app; right). apply in_or_app. left.
+  apply in_flat_map. exists c. split; [assumption|]. apply in_flat_map. exists m. split; [assumption|].
+  apply in_or_app. right. now rewrite Hr.
+Qed.
+Lemma in_all_summary : forall e sm u, In sm (e_summaries e) -> In u (s_fields sm) -> In u (all_ufields e).
+Proof.
+  intros e sm u Hs H. unfold all_ufields. do 4 (apply in_or_app; right). apply in_or_app. left.
+  apply in_flat_map. exists sm. split; assumption.
+Qed.
+Lemma in_all_schema : forall e sc u, In sc (e_schemas e) -> In u (snd sc) -> In u (all_ufields e).
+Proof.
+  intros e sc u Hs H. unfold all_ufields. do 5 (apply in_or_app; right).
+  apply in_flat_map. exists sc. split; assumption.
+Qed.
+Lemma get_keys_incl : forall e u, In u (get_keys e) -> In u (map k_def (e_keys e)).
+Proof.
+  intros e u H. unfold get_keys in H. apply in_map_iff in H. destruct H as [k [<- Hk]].
+  apply filter_In in Hk. apply in_map. exact (proj1 Hk).
+Qed.
+Lemma list_keys_incl : forall e u, In u (list_keys e) -> In u (map k_def (e_keys e)).
+Proof.
+  intros e u H. unfold list_keys in H. apply in_map_iff in H. destruct H as [k [<- Hk]].
+  apply filter_In in Hk. apply in_map. exact (proj1 Hk).
 Qed.
 
 Section Closed.
@@ -157,18 +204,30 @@ Section Closed.
   Hypothesis HEvent : In (false, component_name e (bs "Event")) D.
   Hypothesis HNested : forall ev, In ev (e_events e) ->
     In (false, event_type_name e ++ [46] ++ ev_name ev) D.
+  Hypothesis HUser : forall u, In u (all_ufields e) -> resolves D (of_ufield u) = true.
 
   Let ok := forallb (resolves D).
+
+  Lemma ok_ufields : forall l, (forall u, In u l -> In u (all_ufields e)) ->
+    forallb (resolves D) (map of_ufield l) = true.
+  Proof.
+    intros l H. apply forallb_forall. intros f Hf. apply in_map_iff in Hf.
+    destruct Hf as [u [<- Hu]]. apply HUser. now apply H.
+  Qed.
+  Lemma ok_get_keys : forallb (resolves D) (map of_ufield (get_keys e)) = true.
+  Proof. apply ok_ufields. intros u H. apply in_all_keys. now apply get_keys_incl. Qed.
+  Lemma ok_list_keys : forallb (resolves D) (map of_ufield (list_keys e)) = true.
+  Proof. apply ok_ufields. intros u H. apply in_all_keys. now apply list_keys_incl. Qed.
 
   Lemma ok_keys : ok (fields_of [CMsg 0 (keys_msg e)]) = true.
   Proof.
     unfold ok. cbn [fields_of flat_map keys_msg m_fields m_nested app]. rewrite !app_nil_r.
-    rewrite <- (map_map k_def of_ufield). apply resolves_ufields.
+    rewrite <- (map_map k_def of_ufield). apply ok_ufields. intros u H. now apply in_all_keys.
   Qed.
   Lemma ok_data : ok (fields_of [CMsg 0 (data_msg e)]) = true.
   Proof.
     unfold ok. cbn [fields_of flat_map data_msg m_fields m_nested app]. rewrite !app_nil_r.
-    apply resolves_ufields.
+    apply ok_ufields. intros u H. now apply in_all_data.
   Qed.
   Lemma ok_state : forall fl, ok (fields_of [CMsg 0 (state_msg e fl)]) = true.
   Proof.
@@ -193,7 +252,7 @@ Section Closed.
       apply resolves_object. now apply HNested.
     - apply forallb_forall. intros f Hf. apply in_flat_map in Hf. destruct Hf as [n [Hn Hf]].
       apply in_map_iff in Hn. destruct Hn as [ev [<- Hev]]. cbn [snd] in Hf.
-      apply in_map_iff in Hf. destruct Hf as [u [<- _]]. apply resolves_ufield.
+      apply in_map_iff in Hf. destruct Hf as [u [<- Hu]]. apply HUser. now apply (in_all_event e ev).
   Qed.
 
   Lemma ok_query : ok (fields_of (query_components e)) = true.
@@ -203,26 +262,28 @@ Section Closed.
     unfold page_request, query_request, page_response, plain_field, array_field, local_obj.
     destruct (match e_query e with Some q => q_events_in_get q | None => false end);
       repeat (progress (rewrite ?forallb_app; cbn [forallb app]));
-      rewrite !resolves_ufields;
+      rewrite !ok_get_keys, !ok_list_keys;
       rewrite !(resolves_object D _ _ _ _ _ _ _ _ HState);
       rewrite !(resolves_object D _ _ _ _ _ _ _ _ HEvent); reflexivity.
   Qed.
 
-  Lemma ok_command : forall c, ok (fields_of (command_components e c)) = true.
+  Lemma ok_command : forall c, In c (e_commands e) -> ok (fields_of (command_components e c)) = true.
   Proof.
-    intros c. unfold ok, command_components, service_components.
+    intros c Hin. unfold ok, command_components, service_components.
     rewrite fields_of_app. cbn [fields_of flat_map app]. rewrite app_nil_r.
     apply forallb_forall. intros f Hf. unfold fields_of in Hf.
     apply in_flat_map in Hf. destruct Hf as [comp [Hc Hf]].
     apply in_flat_map in Hc. destruct Hc as [m [Hm Hc]].
-    apply in_map_iff in Hm. destruct Hm as [md [<- _]].
+    apply in_map_iff in Hm. destruct Hm as [md [<- Hmd]].
     unfold method_components in Hc. cbn [fst In] in Hc.
     destruct Hc as [<-|Hc].
     - cbn [m_fields m_nested flat_map app] in Hf. rewrite app_nil_r in Hf.
-      apply in_map_iff in Hf. destruct Hf as [u [<- _]]. apply resolves_ufield.
-    - destruct (md_response md) as [r|]; cbn [option_map In] in Hc; [|destruct Hc].
+      apply in_map_iff in Hf. destruct Hf as [u [<- Hu]]. apply HUser.
+      now apply (in_all_request e c md).
+    - destruct (md_response md) as [r|] eqn:Er; cbn [option_map In] in Hc; [|destruct Hc].
       destruct Hc as [<-|[]]. cbn [m_fields m_nested flat_map app] in Hf. rewrite app_nil_r in Hf.
-      apply in_map_iff in Hf. destruct Hf as [u [<- _]]. apply resolves_ufield.
+      apply in_map_iff in Hf. destruct Hf as [u [<- Hu]]. apply HUser.
+      now apply (in_all_response e c md r).
   Qed.
 
   Lemma ok_publish : ok (fields_of (publish_components e)) = true.
@@ -234,18 +295,29 @@ Section Closed.
     reflexivity.
   Qed.
 
-  Lemma ok_summary : forall s, ok (fields_of (summary_components e s)) = true.
+  Lemma ok_summary : forall sm, In sm (e_summaries e) -> ok (fields_of (summary_components e sm)) = true.
   Proof.
-    intros s. unfold ok, summary_components, topic_components.
+    intros sm Hin. unfold ok, summary_components, topic_components.
     cbn [fields_of flat_map m_fields m_nested app forallb]. rewrite !app_nil_r.
-    rewrite resolves_ufields. reflexivity.
+    rewrite ok_ufields; [reflexivity|]. intros u H. now apply (in_all_summary e sm).
+  Qed.
+
+  Lemma ok_schemas : ok (fields_of (map (fun sc => CMsg 0 (mkMsg (fst sc) None false (map of_ufield (snd sc)) []))
+                                        (e_schemas e))) = true.
+  Proof.
+    unfold ok. apply forallb_forall. intros f Hf. unfold fields_of in Hf.
+    apply in_flat_map in Hf. destruct Hf as [comp [Hc Hf]].
+    apply in_map_iff in Hc. destruct Hc as [sc [<- Hsc]].
+    cbn [m_fields m_nested flat_map app] in Hf. rewrite app_nil_r in Hf.
+    apply in_map_iff in Hf. destruct Hf as [u [<- Hu]]. apply HUser. now apply (in_all_schema e sc).
   Qed.
 
   Lemma ok_flat_map : forall {A} (g : A -> list component) l,
-    (forall x, ok (fields_of (g x)) = true) -> ok (fields_of (flat_map g l)) = true.
+    (forall x, In x l -> ok (fields_of (g x)) = true) -> ok (fields_of (flat_map g l)) = true.
   Proof.
     intros A g l H. induction l as [|x l IH]; [reflexivity|].
-    cbn [flat_map]. rewrite fields_of_app. unfold ok in *. rewrite forallb_app, H, IH. reflexivity.
+    cbn [flat_map]. rewrite fields_of_app. unfold ok in *. rewrite forallb_app.
+    rewrite (H x (or_introl eq_refl)), IH; [reflexivity|]. intros y Hy. apply H. now right.
   Qed.
 
   Lemma ok_expand : forall fl, ok (fields_of (expand_with e fl)) = true.
@@ -256,7 +328,7 @@ Section Closed.
       with ([CMsg 0 (keys_msg e)] ++ [CMsg 0 (data_msg e)] ++ [status_enum e] ++ [CMsg 0 (state_msg e fl)]
             ++ [CMsg 0 (event_type_msg e)] ++ [CMsg 0 (event_msg e)]).
     rewrite !fields_of_app. unfold ok. rewrite !forallb_app. fold ok.
-    rewrite ok_keys, ok_data, ok_state, ok_event_type, ok_event, ok_query, ok_publish.
+    rewrite ok_keys, ok_data, ok_state, ok_event_type, ok_event, ok_query, ok_publish, ok_schemas.
     rewrite (ok_flat_map _ _ ok_command), (ok_flat_map _ _ ok_summary).
     reflexivity.
   Qed.
@@ -268,9 +340,12 @@ Lemma in_defined_head : forall e fl x,
   In x (defined (expand_with e fl)).
 Proof. intros e fl x H. unfold expand_with. rewrite defined_app. apply in_or_app. now left. Qed.
 
-Theorem expand_closed : forall e fl, closed (expand_with e fl) = true.
+(* closedness: the expansion's own references always resolve; the file is closed as soon as
+   the user's object references do *)
+Theorem expand_closed : forall e fl,
+  user_refs_ok e (defined (expand_with e fl)) = true -> closed (expand_with e fl) = true.
 Proof.
-  intros e fl. rewrite closed_unfold. apply ok_expand.
+  intros e fl HU. rewrite closed_unfold. apply ok_expand.
   - apply in_defined_head. cbn. auto.
   - apply in_defined_head. cbn. auto.
   - apply in_defined_head. cbn. auto 10.
@@ -283,29 +358,108 @@ Proof.
     cbn [defined flat_map keys_msg data_msg status_enum state_msg event_type_msg m_name m_nested map app].
     right. right. right. right. right. apply in_or_app. left.
     rewrite map_map. apply in_map_iff. exists ev. split; [reflexivity|assumption].
+  - unfold user_refs_ok in HU. rewrite forallb_forall in HU. exact HU.
 Qed.
 
-(* the compiler accepts exactly what entityNode.run accepts: closedness never fails *)
+(* without object references (scalars and keys only) nothing can dangle *)
+Theorem expand_closed_scalars : forall e fl,
+  forallb (fun u => negb (is_ref_field u)) (all_ufields e) = true -> closed (expand_with e fl) = true.
+Proof.
+  intros e fl H. apply expand_closed. unfold user_refs_ok. apply forallb_forall. intros u Hu.
+  rewrite forallb_forall in H. specialize (H u Hu). apply negb_true_iff in H.
+  now apply resolves_ufield_scalar.
+Qed.
+
+(* conversely a dangling user reference makes the file fail: every user field is emitted *)
+Lemma in_fields_of : forall c cs f, In c cs ->
+  In f (match c with CMsg _ m => m_fields m ++ flat_map snd (m_nested m) | _ => [] end) ->
+  In f (fields_of cs).
+Proof. intros c cs f Hc Hf. unfold fields_of. apply in_flat_map. exists c. split; assumption. Qed.
+
+Lemma fields_of_flat_map : forall {A} (g : A -> list component) l x f,
+  In x l -> In f (fields_of (g x)) -> In f (fields_of (flat_map g l)).
+Proof.
+  intros A g l x f Hx Hf. unfold fields_of in *. apply in_flat_map in Hf. destruct Hf as [c [Hc Hf]].
+  apply in_flat_map. exists c. split; [|assumption]. apply in_flat_map. exists x. split; assumption.
+Qed.
+
+Theorem closed_user_refs : forall e fl,
+  closed (expand_with e fl) = true -> user_refs_ok e (defined (expand_with e fl)) = true.
+Proof.
+  intros e fl H. rewrite closed_unfold in H. rewrite forallb_forall in H.
+  unfold user_refs_ok. apply forallb_forall. intros u Hu. apply H. clear H.
+  unfold all_ufields in Hu. unfold expand_with.
+  repeat (apply in_app_or in Hu; destruct Hu as [Hu|Hu]).
+  - (* keys *) apply (in_fields_of (CMsg 0 (keys_msg e))); [cbn; auto|].
+    cbn [keys_msg m_fields m_nested flat_map]. rewrite app_nil_r.
+    rewrite <- (map_map k_def of_ufield). now apply in_map.
+  - (* data *) apply (in_fields_of (CMsg 0 (data_msg e))); [cbn; auto|].
+    cbn [data_msg m_fields m_nested flat_map]. rewrite app_nil_r. now apply in_map.
+  - (* event fields *) apply in_flat_map in Hu. destruct Hu as [ev [Hev Hu]].
+    apply (in_fields_of (CMsg 0 (event_type_msg e))); [cbn; auto 10|].
+    cbn [event_type_msg m_fields m_nested]. apply in_or_app. right.
+    apply in_flat_map. exists (ev_name ev, map of_ufield (ev_fields ev)). split.
+    + apply in_map_iff. exists ev. split; [reflexivity|assumption].
+    + cbn [snd]. now apply in_map.
+  - (* command request / response *)
+    apply in_flat_map in Hu. destruct Hu as [c [Hc Hu]].
+    apply in_flat_map in Hu. destruct Hu as [m [Hm Hu]].
+    rewrite !fields_of_app. apply in_or_app. right. apply in_or_app. right. apply in_or_app. left.
+    apply (fields_of_flat_map _ _ c); [assumption|].
+    unfold command_components, service_components. rewrite fields_of_app. apply in_or_app. left.
+    apply (fields_of_flat_map fst _ (method_components (command_base e c) (md_name m) (md_verb m) (md_path m)
+      (map of_ufield (md_request m)) (option_map (map of_ufield) (md_response m)) 0)).
+    + apply in_map_iff. exists m. split; [reflexivity|assumption].
+    + unfold method_components. cbn [fst]. apply in_app_or in Hu. destruct Hu as [Hu|Hu].
+      * apply (in_fields_of (CMsg 1 (mkMsg (md_name m ++ bs "Request") None false (map of_ufield (md_request m)) [])));
+          [now left|]. cbn [m_fields m_nested flat_map]. rewrite app_nil_r. now apply in_map.
+      * destruct (md_response m) as [r|]; [|destruct Hu]. cbn [option_map].
+        apply (in_fields_of (CMsg 1 (mkMsg (md_name m ++ bs "Response") None false (map of_ufield r) [])));
+          [right; now left|]. cbn [m_fields m_nested flat_map]. rewrite app_nil_r. now apply in_map.
+  - (* summary fields *) apply in_flat_map in Hu. destruct Hu as [sm [Hs Hu]].
+    rewrite !fields_of_app. do 4 (apply in_or_app; right). apply in_or_app. left.
+    apply (fields_of_flat_map _ _ sm); [assumption|].
+    unfold summary_components, topic_components.
+    apply (in_fields_of (CMsg 2 (mkMsg (summary_topic_name e sm ++ bs "Message") None false
+             (plain_field "upsert" (TObject (bs "j5.messaging.v1") (bs "UpsertMetadata")) true
+              :: map of_ufield (s_fields sm)) []))); [now left|].
+    cbn [m_fields m_nested flat_map]. rewrite app_nil_r. right. now apply in_map.
+  - (* entity-level schemas *) apply in_flat_map in Hu. destruct Hu as [sc [Hs Hu]].
+    rewrite !fields_of_app. do 5 (apply in_or_app; right).
+    unfold fields_of. apply in_flat_map.
+    exists (CMsg 0 (mkMsg (fst sc) None false (map of_ufield (snd sc)) [])). split.
+    + apply in_map_iff. exists sc. split; [reflexivity|assumption].
+    + cbn [m_fields m_nested flat_map]. rewrite app_nil_r. now apply in_map.
+Qed.
+
+(* the compiler accepts what entityNode.run accepts as soon as the user's fields are fine *)
 Theorem compile_expand : forall e,
+  (forall fl, user_refs_ok e (defined (expand_with e fl)) = true) ->
   fields_ok e = true -> query_params_ok e = true -> command_params_ok e = true -> compile e = expand e.
 Proof.
-  intros e Hok Hq Hc. unfold compile, expand.
+  intros e HU Hok Hq Hc. unfold compile, expand.
   destruct (default_filters e _) as [fl|]; [|reflexivity].
-  destruct (nodup_bytes _); [|reflexivity]. now rewrite expand_closed, Hok, Hq, Hc.
+  destruct (nodup_bytes _); [|reflexivity]. now rewrite (expand_closed e fl (HU fl)), Hok, Hq, Hc.
 Qed.
 
-(* the only compile errors the expansion itself can cause are the optional/required clash of a
-   user-declared field and a path parameter that is not a request field; "type not found"
-   never happens *)
+(* the only compile errors the expansion itself can cause are in the user's own fields: an
+   object reference that names nothing, an optional/required clash, a path parameter that is
+   not a request field; a reference made by entity.go is never the cause *)
 Theorem compile_errors : forall e cs, expand e = Ok cs ->
-  compile e = if fields_ok e then
-                if query_params_ok e && command_params_ok e then Ok cs
-                else Err "missing field in request"
-              else Err "cannot be both required and optional".
+  compile e = if user_refs_ok e (defined cs) then
+                if fields_ok e then
+                  if query_params_ok e && command_params_ok e then Ok cs
+                  else Err "missing field in request"
+                else Err "cannot be both required and optional"
+              else Err "type not found".
 Proof.
   intros e cs H. unfold compile. rewrite H.
   unfold expand in H. destruct (default_filters e _) as [fl|]; [|discriminate].
-  destruct (nodup_bytes _); [|discriminate]. inversion H. now rewrite expand_closed.
+  destruct (nodup_bytes _); [|discriminate]. inversion H; subst.
+  destruct (user_refs_ok e (defined (expand_with e fl))) eqn:EU.
+  - now rewrite (expand_closed e fl EU).
+  - destruct (closed (expand_with e fl)) eqn:Ec; [|reflexivity].
+    rewrite (closed_user_refs e fl Ec) in EU. discriminate.
 Qed.
 
 (* ---- the main file holds exactly Keys, Data, State, EventType, Event -------------- *)
@@ -333,9 +487,13 @@ Proof.
   intros m' Hm'. apply H. now right.
 Qed.
 
+Definition schema_msg (sc : bytes * list ufield) : omsg :=
+  mkMsg (fst sc) None false (map of_ufield (snd sc)) [].
+
 Theorem main_file_messages : forall e fl,
   msgs_of_file 0 (expand_with e fl) =
-    [keys_msg e; data_msg e; state_msg e fl; event_type_msg e; event_msg e].
+    [keys_msg e; data_msg e; state_msg e fl; event_type_msg e; event_msg e]
+    ++ map schema_msg (e_schemas e).
 Proof.
   intros e fl. unfold expand_with. rewrite !msgs_of_file_app.
   assert (Hq : msgs_of_file 0 (query_components e) = []).
@@ -346,7 +504,12 @@ Proof.
     unfold method_components. cbn [fst]. destruct (option_map _ (md_response md)); reflexivity. }
   assert (Hs : msgs_of_file 0 (flat_map (summary_components e) (e_summaries e)) = []).
   { apply msgs0_flat_map_nil. intros s. reflexivity. }
-  rewrite Hq, Hc, Hs. reflexivity.
+  assert (Hx : msgs_of_file 0 (map (fun sc => CMsg 0 (mkMsg (fst sc) None false (map of_ufield (snd sc)) []))
+                                   (e_schemas e)) = map schema_msg (e_schemas e)).
+  { induction (e_schemas e) as [|sc l IH]; [reflexivity|]. cbn [map msgs_of_file flat_map].
+    fold (msgs_of_file 0 (map (fun sc0 => CMsg 0 (mkMsg (fst sc0) None false (map of_ufield (snd sc0)) [])) l)).
+    rewrite IH. reflexivity. }
+  rewrite Hq, Hc, Hs, Hx. reflexivity.
 Qed.
 
 (* ---- the same entity annotation on every part ------------------------------------ *)
@@ -401,12 +564,18 @@ Lemma sel_expand : forall (sel : list component -> list bytes) P e fl,
   (forall c, Forall P (sel (command_components e c))) ->
   Forall P (sel (publish_components e)) ->
   (forall s, Forall P (sel (summary_components e s))) ->
+  (forall sc, sel [CMsg 0 (mkMsg (fst sc) None false (map of_ufield (snd sc)) [])] = []) ->
   Forall P (sel (expand_with e fl)).
 Proof.
-  intros sel P e fl Hnil Happ H1 H2 H3 H4 H5. unfold expand_with. rewrite !Happ.
+  intros sel P e fl Hnil Happ H1 H2 H3 H4 H5 H6. unfold expand_with. rewrite !Happ.
   apply Forall_app; split; [exact H1|]. apply Forall_app; split; [exact H2|].
   apply Forall_app; split; [now apply sel_flat_map|]. apply Forall_app; split; [exact H4|].
-  now apply sel_flat_map.
+  apply Forall_app; split; [now apply sel_flat_map|].
+  induction (e_schemas e) as [|sc l IH]; cbn [map]; [rewrite Hnil; constructor|].
+  change (CMsg 0 (mkMsg (fst sc) None false (map of_ufield (snd sc)) []) :: map _ l)
+    with ([CMsg 0 (mkMsg (fst sc) None false (map of_ufield (snd sc)) [])] ++
+          map (fun sc0 => CMsg 0 (mkMsg (fst sc0) None false (map of_ufield (snd sc0)) [])) l).
+  rewrite Happ, H6. exact IH.
 Qed.
 
 Theorem same_annotation : forall e fl,
@@ -419,19 +588,19 @@ Proof.
   assert (As : forall a b, service_entities (a ++ b) = service_entities a ++ service_entities b) by (intros; apply flat_map_app).
   assert (At : forall a b, topic_entities (a ++ b) = topic_entities a ++ topic_entities b) by (intros; apply flat_map_app).
   split; [|split].
-  - apply sel_expand; [reflexivity|exact Ap|cbn; repeat constructor| | |cbn; constructor|intros s; cbn; constructor].
+  - apply sel_expand; [reflexivity|exact Ap|cbn; repeat constructor| | |cbn; constructor|intros s; cbn; constructor|reflexivity].
     + unfold query_components. apply ann_service; [reflexivity|exact Ap| |cbn; constructor].
       intros m [<-|[<-|[<-|[]]]]; cbn; constructor.
     + intros c. unfold command_components. apply ann_service; [reflexivity|exact Ap| |cbn; constructor].
       intros m Hm. apply in_map_iff in Hm. destruct Hm as [md [<- _]].
       unfold method_components. cbn [fst]. destruct (option_map _ (md_response md)); cbn; constructor.
-  - apply sel_expand; [reflexivity|exact As|cbn; constructor| | |cbn; constructor|intros s; cbn; constructor].
+  - apply sel_expand; [reflexivity|exact As|cbn; constructor| | |cbn; constructor|intros s; cbn; constructor|reflexivity].
     + unfold query_components. apply ann_service; [reflexivity|exact As| |cbn; repeat constructor].
       intros m [<-|[<-|[<-|[]]]]; cbn; constructor.
     + intros c. unfold command_components. apply ann_service; [reflexivity|exact As| |cbn; repeat constructor].
       intros m Hm. apply in_map_iff in Hm. destruct Hm as [md [<- _]].
       unfold method_components. cbn [fst]. destruct (option_map _ (md_response md)); cbn; constructor.
-  - apply sel_expand; [reflexivity|exact At|cbn; constructor| | |cbn; repeat constructor|intros s; cbn; repeat constructor].
+  - apply sel_expand; [reflexivity|exact At|cbn; constructor| | |cbn; repeat constructor|intros s; cbn; repeat constructor|reflexivity].
     + unfold query_components. apply ann_service; [reflexivity|exact At| |cbn; constructor].
       intros m [<-|[<-|[<-|[]]]]; cbn; constructor.
     + intros c. unfold command_components. apply ann_service; [reflexivity|exact At| |cbn; constructor].
@@ -461,21 +630,21 @@ Theorem keys_in_declaration_order : forall e,
   map f_json (m_fields (keys_msg e)) = map (fun k => uf_name (k_def k)) (e_keys e).
 Proof.
   intros e. unfold keys_msg. cbn [m_fields]. rewrite map_map. apply map_ext.
-  intros [[n [pt k|p f t] r o] s]; reflexivity.
+  intros [[n [pt k|nm|p f t] r o] s]; reflexivity.
 Qed.
 
 Theorem primary_keys_required : forall e f,
   In f (m_fields (keys_msg e)) -> f_primary f = true -> f_required f = true.
 Proof.
   intros e f Hf Hp. unfold keys_msg in Hf. cbn [m_fields] in Hf.
-  apply in_map_iff in Hf. destruct Hf as [[[n [pt k|p fk t] r o] s] [<- _]]; cbn in *; [discriminate|].
+  apply in_map_iff in Hf. destruct Hf as [[[n [pt k|nm|p fk t] r o] s] [<- _]]; cbn in *; [discriminate|discriminate|].
   subst p. apply orb_true_r.
 Qed.
 
 Definition primary_keys (e : entity) : list ufield := filter is_primary (map k_def (e_keys e)).
 
 Lemma primary_is_key : forall u, is_primary u = true -> is_key_field u = true.
-Proof. intros [n [pt k|p f t] r o] H; [discriminate|reflexivity]. Qed.
+Proof. intros [n [pt k|nm|p f t] r o] H; [discriminate|discriminate|reflexivity]. Qed.
 
 (* the primary keys are, in declaration order, among the Get/Events path keys ... *)
 Theorem get_keys_primary : forall e, filter is_primary (get_keys e) = primary_keys e.
@@ -753,7 +922,7 @@ Qed.
 Theorem legacy_naming_refuted :
   exists e, ident (e_name e) = true /\ legacy_name e (bs "State") <> component_name e (bs "State").
 Proof.
-  exists (mkE (bs "foo.v1") (bs "FooS") [] [] [] [] [] [] [] None). split; [reflexivity|].
+  exists (mkE (bs "foo.v1") (bs "FooS") [] [] [] [] [] [] [] None []). split; [reflexivity|].
   vm_compute. discriminate.
 Qed.
 
